@@ -300,7 +300,7 @@ func c12Scenario(clients []gridClient) *explore.Scenario {
 func c12Scenarios(thorough bool) []*explore.Scenario {
 	n := 1
 	if thorough {
-		n = 6
+		n = 64
 	}
 	// certificate-compression algorithms: the unadvertised-algorithm and extension-removed-after-build
 	// rows of C21's scenario (a CompressedCertificate the on-wire hello did not invite)
